@@ -50,7 +50,9 @@ What is proved (for every `v`, `f`, `n`, every schedule and arrival time unless 
       (`time_t`, 64 bits here) and `last_intr ≤ now`; narrowing the difference to `w` bits is harmless only while the
       difference itself fits (`wrapTo_fits`), and the named witnesses show a 32-bit `int` failing at the instants 2^31,
       2^32, 2^33 for the FIRST interrupt (difference = the whole clock, `last_intr` = 0).  The real dsh.c is run at those
-      clocks, with the one-second boundary straddling 2^31 and 2^32, by vlib/sigthread.py (AT_CLOCK).  Corner mirrored,
+      clocks, with the one-second boundary straddling 2^31 and 2^32, by vlib/sigthread.py (AT_CLOCK).  `c_test_any_order`
+      (Dsh/SignalsClock.lean): also with the clock set BACK between the two interrupts the signed C difference (negative)
+      and the model's truncated difference (0) decide alike: abort / cancel (scenarios double-back5, cancel-back5).  Corner mirrored,
       not a defect of practical interest: `last_intr` starts at 0, so at clock 0 and 1 a first ^C is "within INTR_TIME";
 * `erase_commutes`, `single_int_harmless`
       commutation of the S steps with all others on the observable projection: any run in which S never
